@@ -49,6 +49,17 @@ COMMENTED = [
 ]
 
 
+REUSE_FIRST = [
+    '{ { a ; } }', 'function f ( ) { if ( a ) { b ; } }',
+    'switch ( a ) { case 1 : { b ; } default : c ; }',
+    'x = { p : { q : 1 } , r : function ( ) { return { } ; } } ;',
+    'try { a ; } catch ( e ) { { b ; } } finally { c ; }',
+    'while ( a ) { do { b ; } while ( c ) ; }',
+]
+REUSE_SECOND = ['a ;', '{ a ; }', 'function g ( ) { { b ; } }',
+                'switch ( a ) { case 1 : b ; }']
+
+
 def run(tier, rep):
     items = []
     seen = set()
@@ -79,7 +90,17 @@ def run(tier, rep):
         items.append((t, P.INDENTS[:4], True))
     total = P.run_cases(
         items, lambda acc, it: P.case_c20(acc, it[0], it[1], it[2]))
-    rep.space('programs', count=len(items), container_chains_3=n3)
+    # a printer object reused after an abandoned call
+    reuse = []
+    for t1 in REUSE_FIRST:
+        for cut in range(1, 26 if tier == 'quick' else 41):
+            for t2 in REUSE_SECOND:
+                for ind in ('  ', '\t'):
+                    reuse.append((t1, cut, t2, ind))
+    total.merge(P.run_cases(
+        reuse, lambda acc, it: P.case_c20_reuse(acc, *it)))
+    rep.space('programs', count=len(items), container_chains_3=n3,
+              printer_reuse_cases=len(reuse))
     rep.cov['bounds'] = {'S2_k': 2, 'container_chain_depth':
                          3 if tier == 'quick' else 4,
                          'indents': P.INDENTS[:4]}
@@ -97,5 +118,10 @@ def run(tier, rep):
 
 def replay(w):
     acc = P.Acc()
-    P.case_c20(acc, w['text'], [w['indent']], w.get('with_comments', False))
+    if 'after_abandoned' in w:
+        P.case_c20_reuse(acc, w['after_abandoned'], w['cut'], w['text'],
+                         w['indent'])
+    else:
+        P.case_c20(acc, w['text'], [w['indent']],
+                   w.get('with_comments', False))
     return [{'sig': s, 'detail': v[2]} for s, v in acc.bag.d.items()]
